@@ -11,18 +11,29 @@
 //! Cached blob store: `CachedBlobStore<FaultyStore<MemoryBlobStore>>`, all write strategies,
 //! compared observation by observation with the store it wraps.
 //! FSA cache: `FsaCache` within `max_states`, a state id never answers with an older state.
+//!
+//! Added by the workload audit (see reports/): keys that share hashes (`Key`, `HASH_MODE`), per-run
+//! operation mixes and independently flipped configuration fields, key spaces scaled to the shard
+//! count, the constructors without a callback (`*/plain_ctor`: evictions inferred from
+//! `contains_key`), `is_empty` / `for_each_shard` / `rebalance` as observers; page cache: a
+//! caller-owned `CacheBuffer` reused across reads, offsets beyond 2^44 and near `u64::MAX`, a cache
+//! that holds all the files, a second id for an open file, virtual file ids, files replaced by one of
+//! another size while closed or appended to while open; cached blob store: two stores on one shared
+//! cache, writes through `inner_mut()`, `is_empty`; `file_manager/seq`: `FileManager::read_page` /
+//! `read_data` directly.
 
 use std::collections::{BTreeMap, BTreeSet};
+use std::hash::{Hash, Hasher};
 use std::io::{Seek, SeekFrom, Write};
 use std::panic::{catch_unwind, AssertUnwindSafe};
 use std::path::PathBuf;
-use std::sync::atomic::{AtomicUsize, Ordering};
+use std::sync::atomic::{AtomicU64, AtomicUsize, Ordering};
 use std::sync::{mpsc, Arc, Mutex};
 
 use zipora::blob_store::cached_store::CacheWriteStrategy;
 use zipora::blob_store::{BlobStore, CachedBlobStore, MemoryBlobStore};
-use zipora::cache::{BufferPool, CacheBuffer, FileId, LruPageCache, PageCacheConfig, SingleLruPageCache, PAGE_SIZE};
-use zipora::containers::specialized::{ConcurrentLruMap, ConcurrentLruMapConfig, EvictionCallback, LoadBalancingStrategy, LruMap, LruMapConfig};
+use zipora::cache::{BufferPool, CacheBuffer, FileId, FileManager, LruPageCache, PageCacheConfig, SingleLruPageCache, PAGE_SIZE};
+use zipora::containers::specialized::{ConcurrentLruMap, ConcurrentLruMapConfig, EvictionCallback, LoadBalancingStrategy, LruMap, LruMapConfig, NoOpEvictionCallback};
 use zipora::error::ZiporaError;
 use zipora::fsa::{CacheStrategy, FsaCache, FsaCacheConfig, ZeroPathData};
 use zipora::RecordId;
@@ -35,6 +46,30 @@ use zsim_core::{CheckSpec, Run, Scenario, Tier, Violation};
 
 /// (callback clone id, key, value)
 type Fired = (usize, u64, u64);
+
+/// How `Key` hashes in the current run (set at the start of every LRU run from the seed):
+/// 0 = exactly like the `u64` it wraps, 1 = k % 2, 2 = k / 2, 3 = k % 3, 4 = one hash for all.
+/// With the other modes distinct keys share a hash (and, in the sharded map, a shard), so a
+/// comparison by hash instead of by key is visible.
+static HASH_MODE: AtomicU64 = AtomicU64::new(0);
+
+#[derive(Clone, Default, PartialEq, Eq, Debug)]
+struct Key(u64);
+
+impl Hash for Key {
+    fn hash<H: Hasher>(&self, h: &mut H) {
+        let k = self.0;
+        h.write_u64(match HASH_MODE.load(Ordering::Relaxed) {
+            0 => k,
+            1 => k % 2,
+            2 => k / 2,
+            3 => k % 3,
+            _ => 7,
+        });
+    }
+}
+
+const HASH_MODES: [&str; 5] = ["as-u64", "k%2", "k/2", "k%3", "constant"];
 
 /// Recording eviction callback.  Every clone gets the next number, so that the clone held
 /// by shard i of a `ConcurrentLruMap` (which clones once per shard, in shard order) is i.
@@ -50,9 +85,9 @@ impl Clone for RecCb {
     }
 }
 
-impl EvictionCallback<u64, u64> for RecCb {
-    fn on_evict(&self, key: &u64, value: &u64) {
-        self.log.lock().unwrap().push((self.id, *key, *value));
+impl EvictionCallback<Key, u64> for RecCb {
+    fn on_evict(&self, key: &Key, value: &u64) {
+        self.log.lock().unwrap().push((self.id, key.0, *value));
     }
 }
 
@@ -127,6 +162,13 @@ trait Target {
     fn contains(&mut self, t: usize, k: u64) -> bool;
     fn clear(&mut self, t: usize) -> Result<(), String>;
     fn len(&mut self) -> usize;
+    fn is_empty(&mut self) -> bool;
+    /// contains_key from the driving thread (routing by key does not depend on the caller)
+    fn contains_direct(&mut self, k: u64) -> bool;
+    /// sorted (len, capacity) of every shard as seen through `for_each_shard`, where there is one
+    fn shard_view(&mut self) -> Option<Result<Vec<(usize, usize)>, String>>;
+    /// `rebalance()` where the map has one
+    fn rebalance(&mut self) -> Option<Result<(), String>>;
     fn capacity(&mut self) -> usize;
     fn shard_lens(&mut self) -> Vec<usize>;
     /// per shard (put_count, get_count) of the map's own statistics: how routing is learned
@@ -135,23 +177,35 @@ trait Target {
     fn take_panic(&mut self) -> Option<(String, String)>;
 }
 
-struct Plain {
-    map: LruMap<u64, u64, RecCb>,
+struct Plain<E: EvictionCallback<Key, u64>> {
+    map: LruMap<Key, u64, E>,
     log: Arc<Mutex<Vec<Fired>>>,
 }
 
-impl Target for Plain {
+impl<E: EvictionCallback<Key, u64>> Target for Plain<E> {
     fn get(&mut self, _t: usize, k: u64) -> Option<u64> {
-        self.map.get(&k)
+        self.map.get(&Key(k))
     }
     fn put(&mut self, _t: usize, k: u64, v: u64) -> Result<Option<u64>, String> {
-        self.map.put(k, v).map_err(|e| e.to_string())
+        self.map.put(Key(k), v).map_err(|e| e.to_string())
     }
     fn remove(&mut self, _t: usize, k: u64) -> Option<u64> {
-        self.map.remove(&k)
+        self.map.remove(&Key(k))
     }
     fn contains(&mut self, _t: usize, k: u64) -> bool {
-        self.map.contains_key(&k)
+        self.map.contains_key(&Key(k))
+    }
+    fn is_empty(&mut self) -> bool {
+        self.map.is_empty()
+    }
+    fn contains_direct(&mut self, k: u64) -> bool {
+        self.map.contains_key(&Key(k))
+    }
+    fn shard_view(&mut self) -> Option<Result<Vec<(usize, usize)>, String>> {
+        None
+    }
+    fn rebalance(&mut self) -> Option<Result<(), String>> {
+        None
     }
     fn clear(&mut self, _t: usize) -> Result<(), String> {
         self.map.clear().map_err(|e| e.to_string())
@@ -176,10 +230,14 @@ impl Target for Plain {
     }
 }
 
-type CMap = ConcurrentLruMap<u64, u64, RecCb>;
+type CMap<E> = ConcurrentLruMap<Key, u64, E>;
 
-struct Sharded {
-    map: Arc<CMap>,
+/// what `ConcurrentLruMap` asks of its callback type, plus `'static` for the worker threads
+trait ShCb: EvictionCallback<Key, u64> + Send + Sync + Clone + 'static {}
+impl<T: EvictionCallback<Key, u64> + Send + Sync + Clone + 'static> ShCb for T {}
+
+struct Sharded<E: ShCb> {
+    map: Arc<CMap<E>>,
     pool: Pool,
     /// logical thread -> pool worker
     workers: Vec<usize>,
@@ -187,8 +245,8 @@ struct Sharded {
     panic: Option<(String, String)>,
 }
 
-impl Sharded {
-    fn on<R: Send + 'static + Default>(&mut self, t: usize, f: impl FnOnce(&CMap) -> R + Send + 'static) -> R {
+impl<E: ShCb> Sharded<E> {
+    fn on<R: Send + 'static + Default>(&mut self, t: usize, f: impl FnOnce(&CMap<E>) -> R + Send + 'static) -> R {
         let m = self.map.clone();
         match self.pool.run(self.workers[t % self.workers.len()], move || f(&m)) {
             Ok(r) => r,
@@ -202,18 +260,44 @@ impl Sharded {
     }
 }
 
-impl Target for Sharded {
+impl<E: ShCb> Target for Sharded<E> {
     fn get(&mut self, t: usize, k: u64) -> Option<u64> {
-        self.on(t, move |m| m.get(&k))
+        self.on(t, move |m| m.get(&Key(k)))
     }
     fn put(&mut self, t: usize, k: u64, v: u64) -> Result<Option<u64>, String> {
-        self.on(t, move |m| Some(m.put(k, v).map_err(|e| e.to_string()))).unwrap_or(Ok(None))
+        self.on(t, move |m| Some(m.put(Key(k), v).map_err(|e| e.to_string()))).unwrap_or(Ok(None))
     }
     fn remove(&mut self, t: usize, k: u64) -> Option<u64> {
-        self.on(t, move |m| m.remove(&k))
+        self.on(t, move |m| m.remove(&Key(k)))
     }
     fn contains(&mut self, t: usize, k: u64) -> bool {
-        self.on(t, move |m| m.contains_key(&k))
+        self.on(t, move |m| m.contains_key(&Key(k)))
+    }
+    fn is_empty(&mut self) -> bool {
+        self.map.is_empty()
+    }
+    fn contains_direct(&mut self, k: u64) -> bool {
+        self.map.contains_key(&Key(k))
+    }
+    fn rebalance(&mut self) -> Option<Result<(), String>> {
+        Some(self.map.rebalance().map_err(|e| e.to_string()))
+    }
+    fn shard_view(&mut self) -> Option<Result<Vec<(usize, usize)>, String>> {
+        // for_each_shard runs the closure on one thread per shard: collect, then sort
+        let out: Arc<Mutex<Vec<(usize, usize)>>> = Arc::new(Mutex::new(vec![]));
+        let o2 = out.clone();
+        let r = self.map.for_each_shard(move |m| {
+            o2.lock().unwrap().push((m.len(), m.capacity()));
+            Ok(())
+        });
+        Some(match r {
+            Ok(()) => {
+                let mut v = out.lock().unwrap().clone();
+                v.sort();
+                Ok(v)
+            }
+            Err(e) => Err(e.to_string()),
+        })
     }
     fn clear(&mut self, t: usize) -> Result<(), String> {
         self.on(t, move |m| Some(m.clear().map_err(|e| e.to_string()))).unwrap_or(Ok(()))
@@ -324,7 +408,16 @@ struct LruParams {
     nthreads: usize,
     exact: bool,
     planned: u64,
+    /// false: the map was built without a recording callback; what a put evicted is learned
+    /// from which keys `contains_key` no longer reports
+    has_cb: bool,
+    /// operation mix: upper bounds (of 100) for put, get, remove, contains_key, len; the rest is len-or-clear
+    mix: [u64; 5],
 }
+
+/// Operation mixes drawn per run: the original one, remove-heavy (drains the map, unlinks head and
+/// tail nodes back to back), put-heavy (eviction on nearly every step), clear/len-heavy.
+const MIXES: [[u64; 5]; 4] = [[45, 75, 85, 92, 97], [30, 50, 80, 88, 95], [65, 80, 90, 94, 97], [40, 65, 75, 80, 85]];
 
 /// Drive one history against `tg` and compare with the reference.
 fn lru_history(cx: &mut Run, tg: &mut dyn Target, p: &LruParams) {
@@ -345,7 +438,7 @@ fn lru_history(cx: &mut Run, tg: &mut dyn Target, p: &LruParams) {
         let who = if p.nthreads > 1 { format!("t{} ", t) } else { String::new() };
         let kind = o[0] % 100;
         let before = if p.exact && p.nshards > 1 { tg.counters() } else { vec![] };
-        if kind < 45 {
+        if kind < p.mix[0] {
             // ---- put
             let v = next_val;
             next_val += 1;
@@ -362,7 +455,10 @@ fn lru_history(cx: &mut Run, tg: &mut dyn Target, p: &LruParams) {
                 cx.violate("put_refused", &site("put"), format!("put({},{}) failed with '{}' although the map holds {} of {} entries", k, v, e, tg.len(), total_cap));
                 return;
             }
-            evictions += fired.len() as u64;
+            let mut fired = fired;
+            if p.has_cb {
+                evictions += fired.len() as u64;
+            }
             if p.exact {
                 let s = if p.nshards == 1 {
                     0
@@ -380,6 +476,23 @@ fn lru_history(cx: &mut Run, tg: &mut dyn Target, p: &LruParams) {
                     }
                 }
                 ex.route.insert(k, s);
+                if !p.has_cb {
+                    // no callback to record what was evicted: the entries of this shard that
+                    // contains_key no longer reports (oldest first)
+                    let mut gone: Vec<Fired> = vec![];
+                    for e in ex.shards[s].iter() {
+                        if e.0 != k && !tg.contains_direct(e.0) {
+                            gone.push((s, e.0, e.1));
+                        }
+                    }
+                    if !gone.is_empty() {
+                        let txt: Vec<String> = gone.iter().map(|f| format!("({},{})", f.1, f.2)).collect();
+                        cx.ev(format!("  no longer contained after this put: [{}]", txt.join(",")));
+                        cx.cell(format!("{}/put/evict-inferred", p.ty));
+                    }
+                    evictions += gone.len() as u64;
+                    fired = gone;
+                }
                 for f in &fired {
                     match ex.shards[s].iter().position(|e| e.0 == f.1 && e.1 == f.2) {
                         Some(0) => {
@@ -413,11 +526,15 @@ fn lru_history(cx: &mut Run, tg: &mut dyn Target, p: &LruParams) {
                     cx.violate("over_capacity", &site("put"), format!("shard {} holds {} entries after put({},{}), capacity is {}", s, real[s], k, v, ex.cap));
                     return;
                 }
+                if ex.shards[s].len() > ex.cap && !p.has_cb {
+                    cx.violate("over_capacity", &site("put"), format!("after put({},{}) contains_key still reports all {} keys put into shard {} and not removed, capacity is {} (len() of the shard = {})", k, v, ex.shards[s].len(), s, ex.cap, real[s]));
+                    return;
+                }
                 if ex.shards[s].len() > ex.cap {
                     cx.violate("eviction_without_callback", &site("put"), format!("put({},{}) into a full shard (capacity {}) made room without calling the eviction callback; shard now holds {} entries", k, v, ex.cap, real[s]));
                     return;
                 }
-                for f in &fired {
+                for f in fired.iter().filter(|_| p.has_cb) {
                     if tg.contains(t, f.1) {
                         cx.violate("callback_for_live_entry", &site("put"), format!("eviction callback was called with ({},{}) during put({},{}) but key {} is still in the map", f.1, f.2, k, v, f.1));
                         return;
@@ -438,7 +555,7 @@ fn lru_history(cx: &mut Run, tg: &mut dyn Target, p: &LruParams) {
                     return;
                 }
             }
-        } else if kind < 75 {
+        } else if kind < p.mix[1] {
             // ---- get
             let r = tg.get(t, k);
             let fired = tg.take_fired();
@@ -489,7 +606,7 @@ fn lru_history(cx: &mut Run, tg: &mut dyn Target, p: &LruParams) {
                 cx.violate(&v.class, &v.site, v.detail);
                 return;
             }
-        } else if kind < 85 {
+        } else if kind < p.mix[2] {
             // ---- remove
             let r = tg.remove(t, k);
             let fired = tg.take_fired();
@@ -506,7 +623,7 @@ fn lru_history(cx: &mut Run, tg: &mut dyn Target, p: &LruParams) {
                 cx.violate(&v.class, &v.site, v.detail);
                 return;
             }
-        } else if kind < 92 {
+        } else if kind < p.mix[3] {
             // ---- contains_key
             let r = tg.contains(t, k);
             cx.ev(format!("{}contains_key({}) -> {}", who, k, r));
@@ -529,10 +646,54 @@ fn lru_history(cx: &mut Run, tg: &mut dyn Target, p: &LruParams) {
                     return;
                 }
             }
-        } else if kind < 97 || o[2] % 2 == 1 {
-            // ---- len
+        } else if kind < p.mix[4] || o[2] % 2 == 1 {
+            // ---- len, is_empty
             let n = tg.len();
-            cx.ev(format!("len() -> {}", n));
+            let empty = tg.is_empty();
+            cx.ev(format!("len() -> {}, is_empty() -> {}", n, empty));
+            if p.exact && empty != (ex.total() == 0) {
+                cx.violate("len_mismatch", &site("is_empty"), format!("is_empty() = {} but {} entries were put and not evicted/removed/cleared (len() = {})", empty, ex.total(), n));
+                return;
+            }
+            if !p.exact && empty != (n == 0) {
+                cx.violate("len_mismatch", &site("is_empty"), format!("is_empty() = {} but len() = {}", empty, n));
+                return;
+            }
+            if o[2] % 8 == 7 {
+                // rebalance() may move nothing a caller can see: every key stays retrievable with its
+                // value, recency order per shard stays (checked by the steps that follow)
+                if let Some(r) = tg.rebalance() {
+                    let fired = tg.take_fired();
+                    cx.ev(format!("rebalance() -> {:?}", r));
+                    cx.probe("rebalance");
+                    if let Some(v) = check_quiet(&fired, &ex, &gl, p, "rebalance") {
+                        cx.violate(&v.class, &v.site, v.detail);
+                        return;
+                    }
+                }
+            }
+            if o[2] % 8 < 2 {
+                // the shards as for_each_shard shows them
+                match tg.shard_view() {
+                    None => {}
+                    Some(Err(e)) => cx.ev(format!("for_each_shard -> Err({})", e)),
+                    Some(Ok(view)) => {
+                        cx.ev(format!("for_each_shard (len, capacity) sorted -> {:?}", view));
+                        cx.probe("for_each_shard");
+                        if let Some(bad) = view.iter().find(|x| x.0 > x.1) {
+                            cx.violate("over_capacity", &site("for_each_shard"), format!("a shard holds {} entries, its capacity() is {}", bad.0, bad.1));
+                            return;
+                        }
+                        let mut want: Vec<usize> = if p.exact { ex.shards.iter().map(|l| l.len()).collect() } else { tg.shard_lens() };
+                        want.sort();
+                        let got: Vec<usize> = view.iter().map(|x| x.0).collect();
+                        if got != want {
+                            cx.violate("len_mismatch", &site("for_each_shard"), format!("for_each_shard visited shards with {:?} entries, expected {:?} ({} shards)", got, want, p.nshards));
+                            return;
+                        }
+                    }
+                }
+            }
             if n > total_cap {
                 cx.violate("over_capacity", &site("len"), format!("len() = {} exceeds the capacity {}", n, total_cap));
                 return;
@@ -568,7 +729,8 @@ fn lru_history(cx: &mut Run, tg: &mut dyn Target, p: &LruParams) {
         if p.exact {
             for key in 0..p.nkeys {
                 let want = ex.value(key).is_some();
-                let got = tg.contains(t, key);
+                // (wide key spaces: asked from the driving thread, routing by key does not depend on the caller)
+                let got = if p.nkeys > 8 { tg.contains_direct(key) } else { tg.contains(t, key) };
                 if got != want {
                     cx.violate(if want { "lost_entry" } else { "served_after_removal" }, &site("contains_key"), format!("after this step contains_key({}) = {}, expected {}", key, got, want));
                     return;
@@ -609,46 +771,102 @@ fn lru_base_config(cfg: &Chan, cap: usize) -> (LruMapConfig, &'static str) {
     (c, name)
 }
 
-struct LruMapSeq;
+/// Fields of the preset flipped independently of each other (one run in three), so that a
+/// setting is not only ever seen together with the rest of "its" preset.
+fn lru_cfg_flips(cfg: &Chan, c: &mut LruMapConfig) -> String {
+    if cfg.below(3) != 2 {
+        return String::new();
+    }
+    c.enable_access_tracking = cfg.below(2) == 1;
+    c.enable_statistics = cfg.below(2) == 1;
+    c.use_secure_memory = cfg.below(2) == 1;
+    c.initial_hash_capacity = *cfg.pick(&[1usize, 2, 16, 128]);
+    c.prefetch_distance = cfg.below(4) as usize;
+    c.load_factor = *cfg.pick(&[0.5, 0.75, 0.9]);
+    format!(" flipped[access_tracking={} statistics={} secure_memory={} hash_capacity={} prefetch={} load_factor={}]", c.enable_access_tracking, c.enable_statistics, c.use_secure_memory, c.initial_hash_capacity, c.prefetch_distance, c.load_factor)
+}
+
+/// Per-run knobs shared by the LRU scenarios (drawn after the original configuration draws):
+/// how keys hash and the operation mix.
+fn lru_knobs(cfg: &Chan) -> (u64, [u64; 5], usize) {
+    let hash_mode = cfg.biased_zero(HASH_MODES.len() as u64, 1, 3);
+    HASH_MODE.store(hash_mode, Ordering::SeqCst);
+    let mix = cfg.biased_zero(MIXES.len() as u64, 1, 2) as usize;
+    (hash_mode, MIXES[mix], mix)
+}
+
+/// `plain_ctor`: the constructors without a callback (`new`, `with_config`); what was evicted is
+/// learned from `contains_key`.
+struct LruMapSeq {
+    plain_ctor: bool,
+}
 
 impl Scenario for LruMapSeq {
     fn name(&self) -> String {
-        "lru_map/seq".into()
+        if self.plain_ctor { "lru_map/plain_ctor".into() } else { "lru_map/seq".into() }
     }
     fn budget(&self, tier: Tier) -> u64 {
-        match tier {
-            Tier::Quick => 36_000,
-            Tier::Thorough => 1_080_000,
+        match (self.plain_ctor, tier) {
+            (false, Tier::Quick) => 36_000,
+            (false, Tier::Thorough) => 1_080_000,
+            (true, Tier::Quick) => 8_000,
+            (true, Tier::Thorough) => 240_000,
         }
     }
     fn run(&self, cx: &mut Run) {
         zsim_core::hooks::reset();
         let cfg = cx.src.chan("cfg");
         let cap = 1 + cfg.small(5) as usize;
-        let nkeys = 3 + cfg.below(4);
+        let mut nkeys = 3 + cfg.below(4);
         let planned = 8 + cfg.below(50);
-        let (c, preset) = lru_base_config(&cfg, cap);
+        let (mut c, preset) = lru_base_config(&cfg, cap);
+        let (hash_mode, mix, mix_no) = lru_knobs(&cfg);
+        let flips = lru_cfg_flips(&cfg, &mut c);
+        // 0 = the constructor that takes a configuration, 1 = the one that takes only a capacity
+        let short_ctor = cfg.below(3) == 0;
+        if cfg.below(6) == 0 {
+            nkeys += 4 + cfg.below(4);
+        }
+        let p = LruParams { ty: "LruMap", nshards: 1, cap_per_shard: cap, nkeys, nthreads: 1, exact: true, planned, has_cb: !self.plain_ctor, mix };
         let (cb, log) = new_cb();
-        let map = match LruMap::with_config_and_callback(c, cb) {
-            Ok(m) => m,
-            Err(e) => {
-                cx.violate("construct_refused", "LruMap.with_config_and_callback", format!("capacity {} preset {}: {}", cap, preset, e));
-                return;
+        let (ctor, mut tg): (&str, Box<dyn Target>) = if self.plain_ctor {
+            let (ctor, made) = if short_ctor { ("new", LruMap::<Key, u64>::new(cap)) } else { ("with_config", LruMap::<Key, u64>::with_config(c)) };
+            match made {
+                Ok(map) => (ctor, Box::new(Plain::<NoOpEvictionCallback> { map, log })),
+                Err(e) => {
+                    cx.violate("construct_refused", &format!("LruMap.{}", ctor), format!("capacity {} preset {}: {}", cap, preset, e));
+                    return;
+                }
+            }
+        } else {
+            let (ctor, made) = if short_ctor { ("with_eviction_callback", LruMap::with_eviction_callback(cap, cb)) } else { ("with_config_and_callback", LruMap::with_config_and_callback(c, cb)) };
+            match made {
+                Ok(map) => (ctor, Box::new(Plain::<RecCb> { map, log })),
+                Err(e) => {
+                    cx.violate("construct_refused", &format!("LruMap.{}", ctor), format!("capacity {} preset {}: {}", cap, preset, e));
+                    return;
+                }
             }
         };
-        cx.ev(format!("LruMap capacity={} preset={} keys=0..{}", cap, preset, nkeys));
-        let mut tg = Plain { map, log };
-        let p = LruParams { ty: "LruMap", nshards: 1, cap_per_shard: cap, nkeys, nthreads: 1, exact: true, planned };
-        lru_history(cx, &mut tg, &p);
+        cx.ev(format!("LruMap capacity={} preset={}{} ctor={} keys=0..{} key-hash={} mix={}", cap, if short_ctor { "-" } else { preset }, if short_ctor { "" } else { &flips }, ctor, nkeys, HASH_MODES[hash_mode as usize], mix_no));
+        if hash_mode != 0 {
+            cx.probe("keys_share_hashes");
+        }
+        lru_history(cx, &mut *tg, &p);
     }
 }
 
 struct ConcLru {
     strat: Strat,
+    /// `new` / `with_config` (no callback), hash routing
+    plain_ctor: bool,
 }
 
 impl Scenario for ConcLru {
     fn name(&self) -> String {
+        if self.plain_ctor {
+            return "concurrent_lru/plain_ctor".into();
+        }
         format!(
             "concurrent_lru/{}",
             match self.strat {
@@ -659,6 +877,12 @@ impl Scenario for ConcLru {
         )
     }
     fn budget(&self, tier: Tier) -> u64 {
+        if self.plain_ctor {
+            return match tier {
+                Tier::Quick => 5_000,
+                Tier::Thorough => 150_000,
+            };
+        }
         match (self.strat, tier) {
             (Strat::Hash, Tier::Quick) => 18_000,
             (Strat::Hash, Tier::Thorough) => 540_000,
@@ -671,31 +895,43 @@ impl Scenario for ConcLru {
         let cfg = cx.src.chan("cfg");
         let nshards = *cfg.pick(&[1usize, 2, 2, 4, 4, 8]);
         let cap = 1 + cfg.small(4) as usize;
-        let nkeys = 4 + cfg.below(5);
+        let mut nkeys = 4 + cfg.below(5);
         let planned = 8 + cfg.below(50);
         let nthreads = 1 + cfg.below(3) as usize;
         let via_new = cfg.below(3) == 0 && self.strat == Strat::Hash;
         let (mut base, preset) = lru_base_config(&cfg, cap);
+        let flips = lru_cfg_flips(&cfg, &mut base);
         // routing is learned from the per-shard statistics of the map itself
         base.enable_statistics = true;
         let (cb, log) = new_cb();
-        let made = if via_new {
-            // total capacity is divided by the shard count (rounded down)
-            let extra = cfg.below(nshards as u64) as usize;
-            ConcurrentLruMap::with_eviction_callback(cap * nshards + extra, nshards, cb)
-        } else {
-            let lb = match self.strat {
-                Strat::Hash => LoadBalancingStrategy::Hash,
-                Strat::RoundRobin => LoadBalancingStrategy::RoundRobin,
-                Strat::ThreadAffinity => LoadBalancingStrategy::ThreadAffinity,
-            };
-            ConcurrentLruMap::with_config_and_callback(ConcurrentLruMapConfig { base_config: base, shard_count: nshards, load_balancing: lb }, cb)
+        let lb = match self.strat {
+            Strat::Hash => LoadBalancingStrategy::Hash,
+            Strat::RoundRobin => LoadBalancingStrategy::RoundRobin,
+            Strat::ThreadAffinity => LoadBalancingStrategy::ThreadAffinity,
         };
-        let map = match made {
-            Ok(m) => Arc::new(m),
-            Err(e) => {
-                cx.violate("construct_refused", "ConcurrentLruMap.with_config_and_callback", format!("{} shards x capacity {} preset {}: {}", nshards, cap, preset, e));
-                return;
+        // total capacity is divided by the shard count (rounded down)
+        let extra = if via_new { cfg.below(nshards as u64) as usize } else { 0 };
+        let ctor = match (self.plain_ctor, via_new) {
+            (false, true) => "with_eviction_callback",
+            (false, false) => "with_config_and_callback",
+            (true, true) => "new",
+            (true, false) => "with_config",
+        };
+        let ccfg = ConcurrentLruMapConfig { base_config: base, shard_count: nshards, load_balancing: lb };
+        let refused = |cx: &mut Run, e: ZiporaError| cx.violate("construct_refused", &format!("ConcurrentLruMap.{}", ctor), format!("{} shards x capacity {} preset {}: {}", nshards, cap, preset, e));
+        enum Made {
+            Cb(Arc<CMap<RecCb>>),
+            NoCb(Arc<CMap<NoOpEvictionCallback>>),
+        }
+        let made = if self.plain_ctor {
+            match if via_new { ConcurrentLruMap::<Key, u64>::new(cap * nshards + extra, nshards) } else { ConcurrentLruMap::<Key, u64>::with_config(ccfg) } {
+                Ok(m) => Made::NoCb(Arc::new(m)),
+                Err(e) => return refused(cx, e),
+            }
+        } else {
+            match if via_new { ConcurrentLruMap::with_eviction_callback(cap * nshards + extra, nshards, cb) } else { ConcurrentLruMap::with_config_and_callback(ccfg, cb) } {
+                Ok(m) => Made::Cb(Arc::new(m)),
+                Err(e) => return refused(cx, e),
             }
         };
         let mut pool = Pool::new(0);
@@ -735,10 +971,26 @@ impl Scenario for ConcLru {
                 workers.push(pool.add());
             }
         }
-        cx.ev(format!("ConcurrentLruMap shards={} capacity/shard={} preset={} ctor={} keys=0..{} threads={}", nshards, cap, preset, if via_new { "with_eviction_callback" } else { "with_config_and_callback" }, nkeys, nthreads));
-        let mut tg = Sharded { map, pool, workers, log, panic: None };
-        let p = LruParams { ty: "ConcurrentLruMap", nshards, cap_per_shard: cap, nkeys, nthreads, exact: self.strat == Strat::Hash, planned };
-        lru_history(cx, &mut tg, &p);
+        // knobs added later (drawn last): key hashing, operation mix, key space scaled to the shard count
+        let (hash_mode, mix, mix_no) = lru_knobs(&cfg);
+        match cfg.biased_zero(3, 1, 3) {
+            0 => {}
+            1 => nkeys *= 2.min(nshards as u64),
+            _ => nkeys = (nkeys * nshards as u64).min(40),
+        }
+        if nkeys > 8 {
+            cx.probe("wide_key_space");
+        }
+        if hash_mode != 0 {
+            cx.probe("keys_share_hashes");
+        }
+        cx.ev(format!("ConcurrentLruMap shards={} capacity/shard={} preset={}{} ctor={} keys=0..{} threads={} key-hash={} mix={}", nshards, cap, if via_new { "-" } else { preset }, if via_new { "" } else { &flips }, ctor, nkeys, nthreads, HASH_MODES[hash_mode as usize], mix_no));
+        let mut tg: Box<dyn Target> = match made {
+            Made::Cb(map) => Box::new(Sharded { map, pool, workers, log, panic: None }),
+            Made::NoCb(map) => Box::new(Sharded { map, pool, workers, log, panic: None }),
+        };
+        let p = LruParams { ty: "ConcurrentLruMap", nshards, cap_per_shard: cap, nkeys, nthreads, exact: self.strat == Strat::Hash, planned, has_cb: !self.plain_ctor, mix };
+        lru_history(cx, &mut *tg, &p);
     }
 }
 
@@ -782,8 +1034,12 @@ struct FaultSt {
 trait Pc {
     fn ty(&self) -> &'static str;
     fn open(&self, p: &PathBuf) -> Result<FileId, String>;
-    /// `how`: 0 = read, 1 = second read flavour (read_with_prefetch / read into a pooled buffer)
-    fn read(&mut self, how: u64, f: FileId, off: u64, len: usize, ahead: usize) -> Result<Vec<u8>, String>;
+    /// `how`: 0 = read, 1 = second read flavour (read_with_prefetch / read into a caller's buffer;
+    /// `variant` chooses where that buffer comes from)
+    fn read(&mut self, how: u64, f: FileId, off: u64, len: usize, ahead: usize, variant: u64) -> Result<Vec<u8>, String>;
+    /// name of the read flavour, for the event text and the coverage cell
+    fn flavour(&self, how: u64, variant: u64) -> &'static str;
+    fn register_virtual(&self) -> Result<FileId, String>;
     fn read_batch(&mut self, reqs: Vec<(FileId, u64, usize)>) -> Option<Result<Vec<Vec<u8>>, String>>;
     fn prefetch(&self, f: FileId, off: u64, len: usize) -> Result<(), String>;
     fn invalidate_page(&self, f: FileId, page: u32) -> Result<(), String>;
@@ -811,9 +1067,15 @@ impl Pc for Multi {
     fn open(&self, p: &PathBuf) -> Result<FileId, String> {
         es(self.0.open_file(p))
     }
-    fn read(&mut self, how: u64, f: FileId, off: u64, len: usize, ahead: usize) -> Result<Vec<u8>, String> {
+    fn read(&mut self, how: u64, f: FileId, off: u64, len: usize, ahead: usize, _variant: u64) -> Result<Vec<u8>, String> {
         let b = if how == 0 { self.0.read(f, off, len) } else { self.0.read_with_prefetch(f, off, len, ahead) };
         es(b).map(|b| b.data().to_vec())
+    }
+    fn flavour(&self, how: u64, _variant: u64) -> &'static str {
+        if how == 0 { "read" } else { "read_with_prefetch" }
+    }
+    fn register_virtual(&self) -> Result<FileId, String> {
+        es(self.0.register_file(-1))
     }
     fn read_batch(&mut self, reqs: Vec<(FileId, u64, usize)>) -> Option<Result<Vec<Vec<u8>>, String>> {
         Some(es(self.0.read_batch(reqs)).map(|v| v.iter().map(|b| b.data().to_vec()).collect()))
@@ -851,6 +1113,9 @@ impl Pc for Multi {
 struct Single {
     c: SingleLruPageCache,
     pool: BufferPool,
+    /// a buffer the caller keeps for the whole run and hands to `read` again and again as it is
+    /// (still holding the previous result)
+    own: CacheBuffer,
 }
 
 impl Pc for Single {
@@ -860,16 +1125,35 @@ impl Pc for Single {
     fn open(&self, p: &PathBuf) -> Result<FileId, String> {
         es(self.c.open_file(p))
     }
-    fn read(&mut self, how: u64, f: FileId, off: u64, len: usize, _ahead: usize) -> Result<Vec<u8>, String> {
+    fn read(&mut self, how: u64, f: FileId, off: u64, len: usize, _ahead: usize, variant: u64) -> Result<Vec<u8>, String> {
         if how == 0 {
             es(self.c.read_new(f, off, len)).map(|b| b.data().to_vec())
-        } else {
+        } else if variant % 3 == 0 {
             // into a recycled buffer
             let mut b: CacheBuffer = self.pool.get();
             let r = es(self.c.read(f, off, len, &mut b)).map(|_| b.data().to_vec());
             self.pool.put(b);
             r
+        } else if variant % 3 == 1 {
+            // into the caller's own buffer, not cleared since the last read
+            let r = es(self.c.read(f, off, len, &mut self.own));
+            r.map(|_| self.own.data().to_vec())
+        } else {
+            // into a buffer that was made from other data
+            let mut b = CacheBuffer::from_data(vec![0xEE; 4500]);
+            es(self.c.read(f, off, len, &mut b)).map(|_| b.data().to_vec())
         }
+    }
+    fn flavour(&self, how: u64, variant: u64) -> &'static str {
+        match (how, variant % 3) {
+            (0, _) => "read_new",
+            (_, 0) => "read",
+            (_, 1) => "read(reused-buffer)",
+            _ => "read(from_data-buffer)",
+        }
+    }
+    fn register_virtual(&self) -> Result<FileId, String> {
+        es(self.c.register_file(-1))
     }
     fn read_batch(&mut self, _reqs: Vec<(FileId, u64, usize)>) -> Option<Result<Vec<Vec<u8>>, String>> {
         None
@@ -909,6 +1193,8 @@ struct PcFile {
     id: FileId,
     gen: u64,
     data: Vec<u8>,
+    /// length of the file when the current id was opened (it may have been appended to since)
+    size_at_open: usize,
 }
 
 struct PageCache {
@@ -928,11 +1214,20 @@ fn page_cache_config(cfg: &Chan) -> (PageCacheConfig, String) {
     let odd = *cfg.pick(&[0usize, 0, 1, 100, 4095]);
     let capacity = (pages * PAGE_SIZE + odd).max(1);
     let shards = *cfg.pick(&[1u32, 2, 3, 4, 8, 64]);
-    (c.with_capacity(capacity).with_shards(shards), format!("preset={} capacity={}B ({} pages) shards={}", name, capacity, capacity / PAGE_SIZE, shards))
+    // the remaining builder settings, independently of the preset (one run in three)
+    let (c, extra) = if cfg.below(3) == 2 {
+        let (pf, st, lf) = (cfg.below(2) == 1, cfg.below(2) == 1, *cfg.pick(&[0.5, 0.75, 0.9]));
+        (c.with_prefetch(pf).with_statistics(st).with_load_factor(lf), format!(" prefetch={} statistics={} load_factor={}", pf, st, lf))
+    } else {
+        (c, String::new())
+    };
+    (c.with_capacity(capacity).with_shards(shards), format!("preset={} capacity={}B ({} pages) shards={}{}", name, capacity, capacity / PAGE_SIZE, shards, extra))
 }
 
 const LENS: [usize; 12] = [0, 1, 2, 100, 4095, 4096, 4097, 5000, 8192, 8193, 10000, 13000];
 const DELTAS: [i64; 10] = [0, 0, -1, 1, -2, 2, 100, 2048, 4000, -100];
+/// far beyond EOF: page number 2^32 (which a 32-bit page id cannot name), 2^32 + 1, and the last 16 KiB below u64::MAX
+const FAR: [u64; 3] = [1 << 44, (1 << 44) + 4096, u64::MAX - 16383];
 
 impl Scenario for PageCache {
     fn name(&self) -> String {
@@ -952,10 +1247,24 @@ impl Scenario for PageCache {
         let nfiles = 1 + cfg.below(2) as usize;
         let planned = 6 + cfg.below(30);
         let fault_den = *cfg.pick(&[3u64, 6, 12]);
+        // one fault-free run in twelve also uses offsets far beyond EOF (beyond what a 32-bit page
+        // number can name, and near u64::MAX)
+        let far_offsets = cfg.below(12) == 11 && !self.faulty;
+        // one run in four: a cache in which all the files fit (16 pages; file sizes still follow the
+        // drawn capacity), so that a page read again is served from the cache and only an invalidation
+        // brings new bytes in
+        let roomy = cfg.below(4) == 3;
+        // one fault-free run in ten: a disk change may also append to the file (the appended range,
+        // which starts inside the old last page, is invalidated like any other changed range)
+        let grows = cfg.below(10) == 9 && !self.faulty;
+        let (pcc, desc) = if roomy { (pcc.with_capacity(16 * PAGE_SIZE), format!("{} -> roomy: capacity 16 pages", desc)) } else { (pcc, desc) };
+        if roomy {
+            cx.probe("cache_holds_all_files");
+        }
         let scratch = Scratch::new(cx.src.seed, if self.faulty { "pf" } else { "pc" });
         let mut pc: Box<dyn Pc> = if self.single {
             match SingleLruPageCache::new(pcc) {
-                Ok(c) => Box::new(Single { c, pool: BufferPool::new(2) }),
+                Ok(c) => Box::new(Single { c, pool: BufferPool::new(2), own: CacheBuffer::new() }),
                 Err(e) => {
                     cx.violate("construct_refused", "SingleLruPageCache.new", format!("{}: {}", desc, e));
                     return;
@@ -971,7 +1280,7 @@ impl Scenario for PageCache {
             }
         };
         let ty = pc.ty();
-        cx.ev(format!("{} {}", ty, desc));
+        cx.ev(format!("{} {}{}", ty, desc, if far_offsets { " far-offsets" } else { "" }));
         // files larger than the cache, sizes around page boundaries
         let mut files: Vec<PcFile> = vec![];
         for f in 0..nfiles {
@@ -996,7 +1305,7 @@ impl Scenario for PageCache {
                     return;
                 }
             }
-            files.push(PcFile { path, id, gen: 0, data });
+            files.push(PcFile { path, id, gen: 0, size_at_open: data.len(), data });
         }
         // fault hook: fails FileManager::read_page at seeded calls
         let fst = Arc::new(Mutex::new(FaultSt::default()));
@@ -1030,7 +1339,10 @@ impl Scenario for PageCache {
             let npages = (size + PAGE_SIZE - 1) / PAGE_SIZE;
             let mk_range = |a: u64, b: u64, c: u64| -> (u64, usize) {
                 let base = (a % (npages as u64 + 2)) as i64 * PAGE_SIZE as i64;
-                let off = (base + DELTAS[(b % DELTAS.len() as u64) as usize]).max(0) as u64;
+                let mut off = (base + DELTAS[(b % DELTAS.len() as u64) as usize]).max(0) as u64;
+                if far_offsets && (a / 64) % 8 == 7 {
+                    off = FAR[((a / 512) % FAR.len() as u64) as usize] + off % 8192;
+                }
                 (off, LENS[(c % LENS.len() as u64) as usize])
             };
             let (off, len) = mk_range(o[1], o[2], o[3]);
@@ -1046,6 +1358,16 @@ impl Scenario for PageCache {
                 }
             };
             let len = clip(size, off, len);
+            // NOT generated: prefetch / invalidate_range of a zero-length range at an exact multiple of
+            // 2^44: the 32-bit page id of `off` is 0, that of `off - 1` is 0xFFFF_FFFF, and both calls
+            // walk all 2^32 pages (a hang of hours with unbounded memory growth in invalidate_range;
+            // reported in the audit report, it cannot be observed within a run's time budget)
+            let len = if len == 0 && off >= 1 << 40 && off % (1 << 44) == 0 && (58..66).contains(&(o[0] % 100)) | (74..80).contains(&(o[0] % 100)) { 1 } else { len };
+            if off >= 1 << 40 {
+                // (announced beforehand: the result of such a call is often a panic, which leaves no event of its own)
+                cx.ev(format!("next operation (kind {}) uses the far offset {} with length {}", o[0] % 100, off, len));
+                cx.probe("far_offset");
+            }
             let expect = |files: &Vec<PcFile>, fi: usize, off: u64, len: usize| -> Vec<u8> {
                 let d = &files[fi].data;
                 let s = (off as usize).min(d.len());
@@ -1057,14 +1379,14 @@ impl Scenario for PageCache {
                     return vec![];
                 }
                 let a = off as usize / PAGE_SIZE;
-                let b = (off as usize + len - 1) / PAGE_SIZE;
+                let b = (off as usize).saturating_add(len - 1) / PAGE_SIZE;
                 (a..=b).collect()
             };
             // superset of the pages a call on this range may load (a zero-length range still
             // makes the implementation visit the page of `off` or of `off - 1`)
             let may_touch = |off: u64, len: usize| -> Vec<usize> {
                 let a = (off as usize).saturating_sub(1) / PAGE_SIZE;
-                let b = (off as usize + len) / PAGE_SIZE;
+                let b = (off as usize).saturating_add(len) / PAGE_SIZE;
                 (a..=b).collect()
             };
             let kind = o[0] % 100;
@@ -1079,17 +1401,13 @@ impl Scenario for PageCache {
             if kind < 50 {
                 let how = if kind < 35 { 0 } else { 1 };
                 let ahead = LENS[(o[0] as usize / 100) % LENS.len()];
-                opname = match (self.single, how) {
-                    (false, 0) => "read",
-                    (false, _) => "read_with_prefetch",
-                    (true, 0) => "read_new",
-                    (true, _) => "read",
-                };
+                let variant = o[0] / 100;
+                opname = pc.flavour(how, variant);
                 reads.push((fi, off, len));
                 if how == 1 && !self.single {
-                    also.push((fi, off + len as u64, ahead));
+                    also.push((fi, off.saturating_add(len as u64), ahead));
                 }
-                results = Some(pc.read(how, files[fi].id, off, len, ahead).map(|v| vec![v]));
+                results = Some(pc.read(how, files[fi].id, off, len, ahead, variant).map(|v| vec![v]));
             } else if kind < 58 {
                 let n = 2 + (o[0] / 100) % 2;
                 for j in 0..n {
@@ -1112,7 +1430,7 @@ impl Scenario for PageCache {
                         let mut out = vec![];
                         let mut err = None;
                         for r in &reads {
-                            match pc.read(0, files[r.0].id, r.1, r.2, 0) {
+                            match pc.read(0, files[r.0].id, r.1, r.2, 0, 0) {
                                 Ok(v) => out.push(v),
                                 Err(e) => {
                                     err = Some(e);
@@ -1158,7 +1476,26 @@ impl Scenario for PageCache {
                 cx.probe("invalidate_range");
             } else if kind < 92 {
                 // the disk changes: rewrite a region in place (same size), then tell the cache
-                if size > 0 {
+                if grows && o[2] % 4 == 3 {
+                    let wlen = len.max(1);
+                    files[fi].gen += 1;
+                    let gen = files[fi].gen;
+                    for i in size..size + wlen {
+                        files[fi].data.push(fill(fi, gen, i));
+                    }
+                    {
+                        let mut fh = std::fs::OpenOptions::new().append(true).open(&files[fi].path).expect("reopen scratch file");
+                        fh.write_all(&files[fi].data[size..]).unwrap();
+                        fh.flush().unwrap();
+                    }
+                    let r = pc.invalidate_range(files[fi].id, size as u64, wlen);
+                    cx.ev(format!("disk change f{}: {} bytes appended at {} (generation {}), then invalidate (range) -> {:?}", fi, wlen, size, gen, r));
+                    cx.probe("file_grew_while_open");
+                    if r.is_err() {
+                        cx.violate("invalidate_refused", &format!("{}.invalidate_range", ty), format!("{:?}", r));
+                        return;
+                    }
+                } else if size > 0 {
                     let woff = (off as usize).min(size - 1);
                     let wlen = len.max(1).min(size - woff);
                     files[fi].gen += 1;
@@ -1199,6 +1536,36 @@ impl Scenario for PageCache {
                 let r1 = pc.mark_dirty(files[fi].id, pg);
                 let r2 = if o[2] % 2 == 0 { pc.flush_file(files[fi].id) } else { Ok(()) };
                 cx.ev(format!("mark_dirty f{} page={} -> {:?}{}", fi, pg, r1, if o[2] % 2 == 0 { format!(", flush_file -> {:?}", r2) } else { String::new() }));
+            } else if !self.faulty && o[1] % 4 == 3 {
+                // the same path opened a second time while the first id stays open: read through
+                // the second id, close it again; the first id must go on working (later operations)
+                let id2 = match pc.open(&files[fi].path) {
+                    Ok(id) => id,
+                    Err(e) => {
+                        cx.violate("open_refused", &format!("{}.open_file", ty), e);
+                        return;
+                    }
+                };
+                let got = pc.read(0, id2, off, len, 0, 0);
+                let want = expect(&files, fi, off, len);
+                cx.ev(format!("open f{} a second time, {} off={} len={} through the second id -> {}", fi, pc.flavour(0, 0), off, len, match &got { Ok(b) => format!("Ok[{} bytes]", b.len()), Err(_) => "Err".to_string() }));
+                cx.probe("second_id_for_open_file");
+                match got {
+                    Ok(b) if b == want => {}
+                    Ok(b) => {
+                        let class = if b.len() < want.len() { "short_read" } else if b.len() > want.len() { "long_read" } else { "wrong_bytes" };
+                        cx.violate(class, &format!("{}.read", ty), format!("{}(f{}, off={}, len={}) through a second id of the same file returned {} bytes, the file has {} bytes in that range{}", pc.flavour(0, 0), fi, off, len, b.len(), want.len(), if b.len() == want.len() { " (content differs)" } else { "" }));
+                        return;
+                    }
+                    Err(e) => {
+                        cx.violate("read_refused", &format!("{}.read", ty), format!("read through a second id of f{} failed without an injected fault: {}", fi, e));
+                        return;
+                    }
+                }
+                if let Err(e) = pc.close(id2) {
+                    cx.violate("close_refused", &format!("{}.close_file", ty), e);
+                    return;
+                }
             } else {
                 // close and open again: a new file id, nothing of the old one may be served
                 let r = pc.close(files[fi].id);
@@ -1207,10 +1574,48 @@ impl Scenario for PageCache {
                     cx.violate("close_refused", &format!("{}.close_file", ty), e);
                     return;
                 }
+                if o[1] % 4 == 1 {
+                    // while it is closed the file is replaced by one of another size
+                    let old = files[fi].data.len();
+                    let size = match o[2] % 6 {
+                        0 => 0,
+                        1 => 1,
+                        2 => PAGE_SIZE,
+                        3 => old + PAGE_SIZE + 100,
+                        4 => old.saturating_sub(PAGE_SIZE),
+                        _ => old / 2,
+                    };
+                    files[fi].gen += 1;
+                    let gen = files[fi].gen;
+                    files[fi].data = (0..size).map(|o| fill(fi, gen, o)).collect();
+                    std::fs::write(&files[fi].path, &files[fi].data).expect("rewrite scratch file");
+                    cx.ev(format!("f{} replaced while closed: {} -> {} bytes (generation {})", fi, old, size, gen));
+                    cx.probe("resized_while_closed");
+                }
+                if !self.faulty && o[1] % 4 == 2 {
+                    // a virtual file id is handed out (and read through) between close and open
+                    let v = pc.register_virtual();
+                    let r = match &v {
+                        Ok(v) => Some(pc.read(0, *v, off % (2 * PAGE_SIZE as u64), len, 0, 0).map(|b| b.len())),
+                        Err(_) => None,
+                    };
+                    cx.ev(format!("register_file(-1) -> {}, read through it -> {:?}", if v.is_ok() { "Ok" } else { "Err" }, r.map(|r| r.map_err(|_| "Err"))));
+                    cx.probe("virtual_file_id");
+                }
                 match pc.open(&files[fi].path) {
-                    Ok(id) => files[fi].id = id,
+                    Ok(id) => {
+                        files[fi].id = id;
+                        files[fi].size_at_open = files[fi].data.len();
+                    }
                     Err(e) => {
                         cx.violate("open_refused", &format!("{}.open_file", ty), e);
+                        return;
+                    }
+                }
+                match pc.file_size(files[fi].id) {
+                    Ok(n) if n == files[fi].data.len() as u64 => {}
+                    other => {
+                        cx.violate("wrong_file_size", &format!("{}.file_size", ty), format!("file_size(f{}) = {:?} after reopening, the file has {} bytes", fi, other, files[fi].data.len()));
                         return;
                     }
                 }
@@ -1260,10 +1665,21 @@ impl Scenario for PageCache {
                                     let i = (0..b.len()).find(|&i| b[i] != want[i]).unwrap();
                                     format!("byte {} of the result (file offset {}) is {:#04x}, the file has {:#04x}", i, r.1 as usize + i, b[i], want[i])
                                 };
+                                // the file was appended to since it was opened and the result is exactly what the
+                                // file held up to its old length: the appended bytes are not seen (own class, so that
+                                // this does not blur any other short read)
+                                let at_open = files[r.0].size_at_open;
+                                let unseen_growth = at_open < files[r.0].data.len() && {
+                                    let s0 = (r.1 as usize).min(at_open);
+                                    let e0 = (r.1 as usize).saturating_add(r.2).min(at_open);
+                                    b[..] == files[r.0].data[s0..e0]
+                                };
                                 let class = if fired > 0 {
                                     "fault_swallowed"
                                 } else if was_suspect {
                                     "poisoned_page"
+                                } else if unseen_growth {
+                                    "appended_bytes_not_seen"
                                 } else if b.len() < want.len() {
                                     "short_read"
                                 } else if b.len() > want.len() {
@@ -1275,6 +1691,8 @@ impl Scenario for PageCache {
                                     " — a page load failed (injected) during this call and the call still returned Ok"
                                 } else if was_suspect {
                                     " — no fault in this call; an earlier call had a page load fail on one of these pages"
+                                } else if unseen_growth {
+                                    " — the file was appended to (and the appended range invalidated) after it was opened; the result ends at the length the file had when it was opened"
                                 } else {
                                     ""
                                 };
@@ -1283,7 +1701,7 @@ impl Scenario for PageCache {
                         }
                         cx.ev(format!("{} [{}] -> Ok[{}]{}", opname, req_txt.join("; "), got_txt.join(", "), if fired > 0 { format!(" ({} injected read_page failures)", fired) } else { String::new() }));
                         for r in &reads {
-                            let end = r.1 as usize + r.2;
+                            let end = (r.1 as usize).saturating_add(r.2);
                             let sz = files[r.0].data.len();
                             let c = if r.1 as usize >= sz {
                                 "beyond_eof"
@@ -1411,6 +1829,13 @@ struct CachedBlob {
 const STRATS: [CacheWriteStrategy; 3] = [CacheWriteStrategy::WriteThrough, CacheWriteStrategy::WriteBack, CacheWriteStrategy::WriteAround];
 const BLOB_LENS: [usize; 9] = [0, 1, 7, 100, 4095, 4096, 4097, 9000, 300];
 
+/// One cached store with what the harness knows about it.
+struct BlobSide {
+    store: CachedBlobStore<FaultyStore>,
+    ids: Vec<RecordId>,
+    gone: Vec<RecordId>,
+}
+
 impl Scenario for CachedBlob {
     fn name(&self) -> String {
         format!("cached_blob/{}", if self.faulty { "faulty" } else { "clean" })
@@ -1431,39 +1856,70 @@ impl Scenario for CachedBlob {
         let st = if self.faulty { Some(Arc::new(Mutex::new(StoreFaults { chan: cx.src.chan("fault"), den, armed: false, fired: 0, lost_acks: 0 }))) } else { None };
         let inner = FaultyStore { inner: MemoryBlobStore::new(), st: st.clone() };
         let ctor = cfg.below(3);
-        let made = match ctor {
-            0 => CachedBlobStore::with_write_strategy(inner, pcc, strat),
-            1 => match LruPageCache::new(pcc) {
-                Ok(c) => CachedBlobStore::with_cache_and_strategy(inner, Arc::new(c), strat),
-                Err(e) => Err(e),
-            },
-            _ => CachedBlobStore::new(inner, pcc).map(|mut s| {
-                s.set_write_strategy(strat);
-                s
-            }),
-        };
-        let mut store = match made {
-            Ok(s) => s,
-            Err(e) => {
-                cx.violate("construct_refused", "CachedBlobStore.new", format!("{}: {}", desc, e));
-                return;
+        // one run in four: two cached stores over two wrapped stores share one page cache
+        // (`with_cache`), their operations interleave
+        let shared = cfg.below(4) == 3;
+        let mut sides: Vec<BlobSide> = vec![];
+        if shared {
+            let cache = match LruPageCache::new(pcc) {
+                Ok(c) => Arc::new(c),
+                Err(e) => {
+                    cx.violate("construct_refused", "LruPageCache.new", format!("{}: {}", desc, e));
+                    return;
+                }
+            };
+            let second = FaultyStore { inner: MemoryBlobStore::new(), st: st.clone() };
+            for (i, w) in [inner, second].into_iter().enumerate() {
+                match CachedBlobStore::with_cache(w, cache.clone()) {
+                    Ok(mut s) => {
+                        s.set_write_strategy(STRATS[(cfg.below(3) as usize + i) % 3]);
+                        sides.push(BlobSide { store: s, ids: vec![], gone: vec![] });
+                    }
+                    Err(e) => {
+                        cx.violate("construct_refused", "CachedBlobStore.with_cache", format!("{}: {}", desc, e));
+                        return;
+                    }
+                }
             }
-        };
-        cx.ev(format!("CachedBlobStore {:?} ctor={} cache: {}", strat, ctor, desc));
+            cx.ev(format!("2 x CachedBlobStore::with_cache on one shared cache: {}", desc));
+            cx.probe("two_stores_share_a_cache");
+        } else {
+            let made = match ctor {
+                0 => CachedBlobStore::with_write_strategy(inner, pcc, strat),
+                1 => match LruPageCache::new(pcc) {
+                    Ok(c) => CachedBlobStore::with_cache_and_strategy(inner, Arc::new(c), strat),
+                    Err(e) => Err(e),
+                },
+                _ => CachedBlobStore::new(inner, pcc).map(|mut s| {
+                    s.set_write_strategy(strat);
+                    s
+                }),
+            };
+            match made {
+                Ok(s) => sides.push(BlobSide { store: s, ids: vec![], gone: vec![] }),
+                Err(e) => {
+                    cx.violate("construct_refused", "CachedBlobStore.new", format!("{}: {}", desc, e));
+                    return;
+                }
+            }
+            cx.ev(format!("CachedBlobStore {:?} ctor={} cache: {}", strat, ctor, desc));
+        }
+        let nsides = sides.len();
         let fired_now = |st: &Option<Arc<Mutex<StoreFaults>>>| st.as_ref().map(|s| s.lock().unwrap().fired).unwrap_or(0);
         let arm = |st: &Option<Arc<Mutex<StoreFaults>>>, on: bool| {
             if let Some(s) = st {
                 s.lock().unwrap().armed = on;
             }
         };
-        let mut ids: Vec<RecordId> = vec![];
-        let mut gone: Vec<RecordId> = vec![];
         let mut next_byte = 1u64;
         let mut gets_ok = 0u64;
         let mut ops = cx.src.ops("ops", planned);
         while let Some(o) = ops.next() {
             cx.steps += 1;
             let kind = o[0] % 100;
+            let si = (o[3] as usize / 16) % nsides;
+            let who = if nsides > 1 { format!("s{} ", si) } else { String::new() };
+            let BlobSide { store, ids, gone } = &mut sides[si];
             let pick_id = |ids: &Vec<RecordId>, gone: &Vec<RecordId>, a: u64| -> RecordId {
                 let n = ids.len() + gone.len() + 1;
                 let i = (a as usize) % n;
@@ -1485,7 +1941,7 @@ impl Scenario for CachedBlob {
                 let r = store.put(&data);
                 arm(&st, false);
                 let fired = fired_now(&st) - before;
-                cx.ev(format!("put(len={} tag={}) -> {:?}{}", len, tag, r.as_ref().map_err(|e| e.to_string()), if fired > 0 { " (injected store fault)" } else { "" }));
+                cx.ev(format!("{}put(len={} tag={}) -> {:?}{}", who, len, tag, r.as_ref().map_err(|e| e.to_string()), if fired > 0 { " (injected store fault)" } else { "" }));
                 match r {
                     Ok(id) => {
                         ids.push(id);
@@ -1506,13 +1962,13 @@ impl Scenario for CachedBlob {
                     }
                 }
             } else if kind < 75 {
-                let id = pick_id(&ids, &gone, o[1]);
+                let id = pick_id(&*ids, &*gone, o[1]);
                 arm(&st, true);
                 let r = store.get(id);
                 arm(&st, false);
                 let fired = fired_now(&st) - before;
                 let raw = store.inner().inner.get(id);
-                cx.ev(format!("get({}) -> {}{}", id, match &r { Ok(b) => format!("Ok({} bytes)", b.len()), Err(_) => "Err".to_string() }, if fired > 0 { " (injected store fault)" } else { "" }));
+                cx.ev(format!("{}get({}) -> {}{}", who, id, match &r { Ok(b) => format!("Ok({} bytes)", b.len()), Err(_) => "Err".to_string() }, if fired > 0 { " (injected store fault)" } else { "" }));
                 cx.cell(format!("CachedBlobStore/get/{}", if raw.is_ok() { "present" } else { "absent" }));
                 match (r, raw) {
                     (Ok(b), Ok(w)) => {
@@ -1536,13 +1992,13 @@ impl Scenario for CachedBlob {
                     (Err(_), Err(_)) => {}
                 }
             } else if kind < 85 {
-                let id = pick_id(&ids, &gone, o[1]);
+                let id = pick_id(&*ids, &*gone, o[1]);
                 arm(&st, true);
                 let r = store.remove(id);
                 arm(&st, false);
                 let fired = fired_now(&st) - before;
                 let still = store.inner().inner.contains(id);
-                cx.ev(format!("remove({}) -> {:?}{}", id, r.as_ref().map_err(|_| "Err"), if fired > 0 { " (injected store fault)" } else { "" }));
+                cx.ev(format!("{}remove({}) -> {:?}{}", who, id, r.as_ref().map_err(|_| "Err"), if fired > 0 { " (injected store fault)" } else { "" }));
                 if !still && ids.contains(&id) {
                     ids.retain(|x| *x != id);
                     gone.push(id);
@@ -1552,36 +2008,65 @@ impl Scenario for CachedBlob {
                     return;
                 }
             } else if kind < 92 {
-                let id = pick_id(&ids, &gone, o[1]);
-                let (c, s, n) = (store.contains(id), store.size(id).ok().flatten(), store.len());
-                let (rc, rs, rn) = (store.inner().inner.contains(id), store.inner().inner.size(id).ok().flatten(), store.inner().inner.len());
-                cx.ev(format!("contains({}) -> {}, size -> {:?}, len -> {}", id, c, s, n));
-                if (c, s, n) != (rc, rs, rn) {
-                    cx.violate("metadata_mismatch", "CachedBlobStore.contains", format!("contains/size/len({}) = {:?}, the wrapped store says {:?}", id, (c, s, n), (rc, rs, rn)));
+                let id = pick_id(&*ids, &*gone, o[1]);
+                let (c, s, n, e) = (store.contains(id), store.size(id).ok().flatten(), store.len(), store.is_empty());
+                let (rc, rs, rn, re) = (store.inner().inner.contains(id), store.inner().inner.size(id).ok().flatten(), store.inner().inner.len(), store.inner().inner.is_empty());
+                cx.ev(format!("{}contains({}) -> {}, size -> {:?}, len -> {}, is_empty -> {}", who, id, c, s, n, e));
+                if (c, s, n, e) != (rc, rs, rn, re) {
+                    cx.violate("metadata_mismatch", "CachedBlobStore.contains", format!("contains/size/len/is_empty({}) = {:?}, the wrapped store says {:?}", id, (c, s, n, e), (rc, rs, rn, re)));
                     return;
                 }
             } else {
-                match o[1] % 5 {
+                match o[1] % 7 {
                     0 => {
                         store.disable_cache();
-                        cx.ev("disable_cache");
+                        cx.ev(format!("{}disable_cache", who));
                     }
                     1 => {
                         store.enable_cache();
-                        cx.ev("enable_cache");
+                        cx.ev(format!("{}enable_cache", who));
                     }
                     2 => {
                         let s = STRATS[(o[2] % 3) as usize];
                         store.set_write_strategy(s);
-                        cx.ev(format!("set_write_strategy {:?}", s));
+                        let back = store.write_strategy();
+                        cx.ev(format!("{}set_write_strategy {:?}", who, s));
+                        if back != s {
+                            cx.ev(format!("  write_strategy() -> {:?}", back));
+                        }
                     }
                     3 => {
                         let r = store.prefetch_range((o[2] % 20000) as u64, LENS[(o[3] % LENS.len() as u64) as usize]);
-                        cx.ev(format!("prefetch_range -> {:?}", r.map_err(|e| e.to_string())));
+                        cx.ev(format!("{}prefetch_range -> {:?}", who, r.map_err(|e| e.to_string())));
+                    }
+                    4 => {
+                        let r = CachedBlobStore::flush(&*store);
+                        cx.ev(format!("{}flush -> {:?}", who, r.map_err(|e| e.to_string())));
+                    }
+                    5 => {
+                        // the wrapped store is written to directly (inner_mut), behind the wrapper's back
+                        let len = BLOB_LENS[(o[2] % BLOB_LENS.len() as u64) as usize];
+                        let tag = next_byte;
+                        next_byte += 1;
+                        let data: Vec<u8> = (0..len).map(|i| ((i as u64 * 7 + tag * 31) % 253) as u8 + 1).collect();
+                        let r = store.inner_mut().inner.put(&data);
+                        cx.ev(format!("{}inner_mut().put(len={} tag={}) -> {:?}", who, len, tag, r.as_ref().map_err(|e| e.to_string())));
+                        if let Ok(id) = r {
+                            ids.push(id);
+                            gone.retain(|g| *g != id);
+                            cx.probe("written_through_inner_mut");
+                        }
                     }
                     _ => {
-                        let r = CachedBlobStore::flush(&store);
-                        cx.ev(format!("flush -> {:?}", r.map_err(|e| e.to_string())));
+                        // ... and removed from directly
+                        let id = pick_id(&*ids, &*gone, o[2]);
+                        let r = store.inner_mut().inner.remove(id);
+                        cx.ev(format!("{}inner_mut().remove({}) -> {:?}", who, id, r.as_ref().map_err(|_| "Err")));
+                        if !store.inner().inner.contains(id) && ids.contains(&id) {
+                            ids.retain(|x| *x != id);
+                            gone.push(id);
+                            cx.probe("removed_through_inner_mut");
+                        }
                     }
                 }
             }
@@ -1627,6 +2112,10 @@ impl Scenario for FsaSeq {
             1 => FsaCacheConfig::small(),
             _ => FsaCacheConfig::memory_efficient(),
         };
+        // (drawn last) one run in four: a cache large enough that one eviction round removes 2 or 3 states
+        let big = cfg.biased_zero(4, 1, 4);
+        let max_states = if big == 0 { max_states } else { [20usize, 25, 31][big as usize - 1] };
+        let planned = if big == 0 { planned } else { planned + 30 };
         c.max_states = max_states;
         c.strategy = strategy;
         let mut cache = match FsaCache::with_config(c) {
@@ -1846,18 +2335,171 @@ impl Scenario for PageCacheReaders {
     }
 }
 
+// ------------------------------------------------------------------------------------------
+// FileManager (cache/mod.rs), the loader under the page cache, driven directly: read_page and
+// read_data (which no cache path calls) return the file's bytes at that page / range.
+
+struct FileMgr;
+
+impl Scenario for FileMgr {
+    fn name(&self) -> String {
+        "file_manager/seq".into()
+    }
+    fn budget(&self, tier: Tier) -> u64 {
+        match tier {
+            Tier::Quick => 1_500,
+            Tier::Thorough => 60_000,
+        }
+    }
+    fn run(&self, cx: &mut Run) {
+        zsim_core::hooks::reset();
+        let cfg = cx.src.chan("cfg");
+        let nfiles = 1 + cfg.below(2) as usize;
+        let planned = 6 + cfg.below(25);
+        let scratch = Scratch::new(cx.src.seed, "fm");
+        let fm = FileManager::new();
+        let mut files: Vec<PcFile> = vec![];
+        for f in 0..nfiles {
+            let size = cfg.below(4) as usize * PAGE_SIZE + *cfg.pick(&[0usize, 0, 0, 1, 100, 904, 4095]);
+            let data: Vec<u8> = (0..size).map(|o| fill(f, 0, o)).collect();
+            let path = scratch.dir.join(format!("m{}.bin", f));
+            std::fs::write(&path, &data).expect("write scratch file");
+            let id = match fm.open_file(&path) {
+                Ok(id) => id,
+                Err(e) => {
+                    cx.violate("open_refused", "FileManager.open_file", e.to_string());
+                    return;
+                }
+            };
+            cx.ev(format!("open m{} size={}", f, size));
+            files.push(PcFile { path, id, gen: 0, size_at_open: data.len(), data });
+        }
+        let mut compared = 0u64;
+        let mut ops = cx.src.ops("ops", planned);
+        while let Some(o) = ops.next() {
+            cx.steps += 1;
+            let fi = (o[3] as usize / 16) % files.len();
+            let size = files[fi].data.len();
+            let npages = (size + PAGE_SIZE - 1) / PAGE_SIZE;
+            let kind = o[0] % 100;
+            if kind < 45 {
+                // read_data: any range; the buffer is at least as long as the range (documented)
+                let base = (o[1] % (npages as u64 + 2)) as i64 * PAGE_SIZE as i64;
+                let mut off = (base + DELTAS[(o[2] % DELTAS.len() as u64) as usize]).max(0) as u64;
+                if (o[1] / 64) % 16 == 15 {
+                    off = FAR[((o[1] / 1024) % FAR.len() as u64) as usize] + off % 8192;
+                }
+                let len = LENS[(o[3] % LENS.len() as u64) as usize];
+                let slack = [0usize, 0, 1, 700][(o[0] as usize / 100) % 4];
+                let mut buf = vec![0xA5u8; len + slack];
+                let r = fm.read_data(files[fi].id, off, len, &mut buf);
+                let s = (off.min(size as u64)) as usize;
+                let e = (off.saturating_add(len as u64).min(size as u64)) as usize;
+                let want = &files[fi].data[s..e];
+                cx.ev(format!("read_data m{} off={} len={} buffer={} -> {:?}", fi, off, len, buf.len(), r.as_ref().map_err(|e| e.to_string())));
+                cx.cell(format!("FileManager/read_data/{}", if s >= size { "beyond_eof" } else if off as usize + len > size { "straddles_eof" } else { "inside" }));
+                match r {
+                    Err(e) => {
+                        cx.violate("read_refused", "FileManager.read_data", format!("read_data(m{}, off={}, len={}) into a buffer of {} bytes failed: {}", fi, off, len, buf.len(), e));
+                        return;
+                    }
+                    Ok(n) => {
+                        compared += 1;
+                        if n != want.len() {
+                            cx.violate(if n < want.len() { "short_read" } else { "long_read" }, "FileManager.read_data", format!("read_data(m{}, off={}, len={}) returned {}, the file (size {}) has {} bytes in that range", fi, off, len, n, size, want.len()));
+                            return;
+                        }
+                        if let Some(i) = (0..n).find(|&i| buf[i] != want[i]) {
+                            cx.violate("wrong_bytes", "FileManager.read_data", format!("read_data(m{}, off={}, len={}): byte {} (file offset {}) is {:#04x}, the file has {:#04x}", fi, off, len, i, off as usize + i, buf[i], want[i]));
+                            return;
+                        }
+                    }
+                }
+            } else if kind < 80 {
+                // read_page: a whole-page buffer (documented); the count is the valid prefix
+                let pg = if (o[1] / 64) % 16 == 15 { [u32::MAX, u32::MAX / 2, 1 << 20][(o[1] / 1024) as usize % 3] } else { (o[1] % (npages as u64 + 2)) as u32 };
+                let mut buf = vec![0xA5u8; PAGE_SIZE];
+                let r = fm.read_page(files[fi].id, pg, &mut buf);
+                let s = (pg as usize).saturating_mul(PAGE_SIZE).min(size);
+                let e = (pg as usize).saturating_mul(PAGE_SIZE).saturating_add(PAGE_SIZE).min(size);
+                let want = &files[fi].data[s..e];
+                cx.ev(format!("read_page m{} page={} -> {:?}", fi, pg, r.as_ref().map_err(|e| e.to_string())));
+                cx.cell(format!("FileManager/read_page/{}", if want.is_empty() { "beyond_eof" } else if want.len() < PAGE_SIZE { "last_partial" } else { "full" }));
+                match r {
+                    Err(e) => {
+                        cx.violate("read_refused", "FileManager.read_page", format!("read_page(m{}, page {}) failed: {}", fi, pg, e));
+                        return;
+                    }
+                    Ok(n) => {
+                        compared += 1;
+                        if n != want.len() {
+                            cx.violate(if n < want.len() { "short_read" } else { "long_read" }, "FileManager.read_page", format!("read_page(m{}, page {}) returned {}, the file (size {}) has {} bytes in that page", fi, pg, n, size, want.len()));
+                            return;
+                        }
+                        if let Some(i) = (0..n).find(|&i| buf[i] != want[i]) {
+                            cx.violate("wrong_bytes", "FileManager.read_page", format!("read_page(m{}, page {}): byte {} is {:#04x}, the file has {:#04x}", fi, pg, i, buf[i], want[i]));
+                            return;
+                        }
+                    }
+                }
+            } else if kind < 88 {
+                let r = fm.file_size(files[fi].id);
+                cx.ev(format!("file_size m{} -> {:?}", fi, r.as_ref().map_err(|e| e.to_string())));
+                if r.as_ref().ok() != Some(&(size as u64)) {
+                    cx.violate("wrong_file_size", "FileManager.file_size", format!("file_size(m{}) = {:?}, the file has {} bytes", fi, r.map_err(|e| e.to_string()), size));
+                    return;
+                }
+            } else {
+                // close, replace the file by one of another size (or leave it), open again
+                if let Err(e) = fm.close_file(files[fi].id) {
+                    cx.violate("close_refused", "FileManager.close_file", e.to_string());
+                    return;
+                }
+                if o[1] % 2 == 0 {
+                    let new = match o[2] % 5 {
+                        0 => 0,
+                        1 => 1,
+                        2 => size + PAGE_SIZE + 100,
+                        3 => size.saturating_sub(PAGE_SIZE),
+                        _ => size / 2,
+                    };
+                    files[fi].gen += 1;
+                    let gen = files[fi].gen;
+                    files[fi].data = (0..new).map(|o| fill(fi, gen, o)).collect();
+                    std::fs::write(&files[fi].path, &files[fi].data).expect("rewrite scratch file");
+                    cx.ev(format!("close m{}, replace it: {} -> {} bytes, open", fi, size, new));
+                } else {
+                    cx.ev(format!("close m{}, open", fi));
+                }
+                match fm.open_file(&files[fi].path) {
+                    Ok(id) => files[fi].id = id,
+                    Err(e) => {
+                        cx.violate("open_refused", "FileManager.open_file", e.to_string());
+                        return;
+                    }
+                }
+                cx.probe("close_reopen");
+            }
+        }
+        cx.probe_n("reads_compared", compared);
+        cx.nontrivial = compared >= 1;
+    }
+}
+
 fn main() {
     let mut spec = CheckSpec::new(
         "C17",
         "exploration",
         "seeded operation histories (E5) over small key spaces / small caches, compared step by step with reference models; page cache over real scratch files with a seeded fault hook in FileManager::read_page; \
-         non-trivial = at least one eviction (LRU maps), at least one page served from cache or evicted (page cache), at least one get compared (cached blob store), >= 3 operations (FSA cache); \
+         non-trivial = at least one eviction (LRU maps), at least one page served from cache or evicted (page cache), at least one get compared (cached blob store), >= 3 operations (FSA cache), at least one read compared (file manager); \
          distinct = distinct hash of the (operation, observed result) trace",
     );
     spec.assumptions = vec![
         "operations on the sharded map are issued from different threads but never overlap (the statement quantifies over access sequences)".into(),
         "the shard a key is routed to is learned from the map's own per-shard statistics, not re-derived".into(),
-        "a disk change is always followed by an invalidation of the changed range before the next read; file sizes never change while a file is open".into(),
+        "a disk change is always followed by an invalidation of the changed range before the next read; a file never shrinks while it is open (one fault-free run in ten appends to an open file and invalidates the appended range)".into(),
+        "not generated: prefetch / invalidate_range of a zero-length range at an exact multiple of 2^44 (walks 2^32 pages: hours, unbounded memory)".into(),
+        "ConcurrentLruMap without a callback (concurrent_lru/plain_ctor, lru_map/plain_ctor): what a put evicted is what contains_key no longer reports".into(),
         "cache/lru_cache.rs, cache/page_cache.rs and cache/sharding.rs are not compiled into the crate and are not exercised".into(),
     ];
     spec.components = vec![
@@ -1871,10 +2513,12 @@ fn main() {
         ("eviction callback", "stub (records key and value)"),
     ];
     spec.init = zsim_props::install_hooks;
-    spec.scenarios.push(Box::new(LruMapSeq));
-    spec.scenarios.push(Box::new(ConcLru { strat: Strat::Hash }));
-    spec.scenarios.push(Box::new(ConcLru { strat: Strat::RoundRobin }));
-    spec.scenarios.push(Box::new(ConcLru { strat: Strat::ThreadAffinity }));
+    spec.scenarios.push(Box::new(LruMapSeq { plain_ctor: false }));
+    spec.scenarios.push(Box::new(LruMapSeq { plain_ctor: true }));
+    spec.scenarios.push(Box::new(ConcLru { strat: Strat::Hash, plain_ctor: false }));
+    spec.scenarios.push(Box::new(ConcLru { strat: Strat::Hash, plain_ctor: true }));
+    spec.scenarios.push(Box::new(ConcLru { strat: Strat::RoundRobin, plain_ctor: false }));
+    spec.scenarios.push(Box::new(ConcLru { strat: Strat::ThreadAffinity, plain_ctor: false }));
     spec.scenarios.push(Box::new(PageCache { single: false, faulty: false }));
     spec.scenarios.push(Box::new(PageCache { single: false, faulty: true }));
     spec.scenarios.push(Box::new(PageCache { single: true, faulty: false }));
@@ -1883,5 +2527,6 @@ fn main() {
     spec.scenarios.push(Box::new(CachedBlob { faulty: false }));
     spec.scenarios.push(Box::new(CachedBlob { faulty: true }));
     spec.scenarios.push(Box::new(FsaSeq));
+    spec.scenarios.push(Box::new(FileMgr));
     zsim_core::driver::main(spec);
 }
